@@ -458,6 +458,8 @@ theorem dropShard_ids (d : Data) (id : Nat) (age : Del) (hok : IdsOK d) : IdsOK 
 
 theorem copyOwner_ids (d : Data) (id n : Nat) (hok : IdsOK d) : IdsOK (copyShardOwner d id n) := by
   unfold copyShardOwner
+  split
+  · exact hok
   apply withShardGroup_ids d id _ _ hok
   intro g
   refine ⟨rfl, ?_⟩
